@@ -1,4 +1,4 @@
-import Model.Offline.Split
+import Model.Offline.Run
 /-!
 # What "the offline script has the same effect as the online run" means (C12)
 
@@ -38,5 +38,33 @@ def sameVersion (a b : Dump) : Bool := a.version.isPerm b.version
 
 /-- the property: same schema, same inserted data, same version-table rows -/
 def sameEffect (a b : Dump) : Bool := sameSchema a b && sameData a b && sameVersion a b
+
+/-! ## the same notion on the abstract databases of the model -/
+open Model.Offline
+
+/-- same tables (columns and rows), same indexes, same uninterpreted statements, same version
+    rows (an absent version table has no rows: reading (i)) -/
+def sameDb (a b : DB) : Prop :=
+  a.tables = b.tables ∧ a.indexes = b.indexes ∧ a.log = b.log ∧ a.version.getD [] = b.version.getD []
+
+/-- outcome of a whole run: both raise, or both succeed with the same database -/
+def sameOutcome : Option DB → Option DB → Prop
+  | some a, some b => sameDb a b
+  | none, none => True
+  | _, _ => False
+
+def sameDbB (a b : DB) : Bool :=
+  a.tables == b.tables && a.indexes == b.indexes && a.log == b.log && a.version.getD [] == b.version.getD []
+
+def sameOutcomeB : Option DB → Option DB → Bool
+  | some a, some b => sameDbB a b
+  | none, none => true
+  | _, _ => false
+
+theorem sameDbB_iff (a b : DB) : sameDbB a b = true ↔ sameDb a b := by
+  simp [sameDbB, sameDb, and_assoc]
+
+theorem sameOutcomeB_iff (a b : Option DB) : sameOutcomeB a b = true ↔ sameOutcome a b := by
+  cases a <;> cases b <;> simp [sameOutcomeB, sameOutcome, sameDbB_iff]
 
 end Spec.Offline
